@@ -1,1 +1,3 @@
-import JdModel
+import JdProofs.LcsProofs
+import JdProofs.EqualsList
+import JdProofs.NoPanic
